@@ -193,7 +193,8 @@ def unionFreshKept {α β : Type} (fa fb : α → β) (labels : List Int) (X : L
   concat2 (resetIndex (freshLabels (X.map fa))) (resetIndex (labels.zip (X.map fb)))
 
 
-/-! ## Cells read by LABEL (known finding: DerivativeSlopeTransformer) and integer-typed cells (SlopeTransformer) -/
+/-! ## Cells read by label (DerivativeSlopeTransformer, repaired in 54be566) and integer-typed cells
+(SlopeTransformer, repaired in 5cad45f) -/
 
 def lookupCell (labels : List Int) (vals : List Rat) (l : Int) : Except Err Rat :=
   match labels, vals with
@@ -207,8 +208,9 @@ def derAt (get : Int → Except Err Rat) (i : Int) : Except Err Rat := do
   let c ← get (i + 1)
   pure (((b - a) + (c - a) / 2) / 2)
 
-/-- `DerivativeSlopeTransformer.row_wise_get_der.get_der(x)`: `x` is the cell Series and `x[i]` looks the
-LABEL `i` up in its index (`for i in range(1, len(x) - 1)`); the first and last value are repeated -/
+/-- ORIGINAL `DerivativeSlopeTransformer.row_wise_get_der.get_der(x)` (before /repo 54be566): `x` is the cell
+Series and `x[i]` looks the LABEL `i` up in its index (`for i in range(1, len(x) - 1)`); the first and last
+value are repeated.  Still the meaning of `x[i]` on a Series whose labels are `labels`. -/
 def getDerByLabel (labels : List Int) (vals : List Rat) : Except Err (List Rat) := do
   let der ← (List.range (vals.length - 2)).mapM (fun (k : Nat) => derAt (lookupCell labels vals) (Int.ofNat k + 1))
   pure ((der.head?.toList ++ der) ++ der.getLast?.toList)
@@ -227,11 +229,20 @@ def labelsFrom (k : Int) : Nat → List Int
   | 0 => []
   | n + 1 => k :: labelsFrom (k + 1) n
 
+/-- `get_der` as it is now: `x = np.asarray(x)` first, so `x[i]` reads position `i` whatever index the cell
+Series carried (an array is "labelled" 0..n-1) -/
+def getDer (_labels : List Int) (vals : List Rat) : Except Err (List Rat) :=
+  getDerByLabel (labelsFrom 0 vals.length) vals
+
 /-- `statistics.mean(Y)` hands the mean back in the type of the data: for numpy integers the exact mean is
 truncated towards zero (`np.int32(Fraction(3, 2)) == 1`); `SlopeTransformer._get_gradient` uses it -/
 def meanAsStored (intTyped : Bool) (ys : List Rat) : Rat :=
   let m := ys.sum / (ys.length : Rat)
   if intTyped then ((if m < 0 then -((-m).floor) else m.floor : Int) : Rat) else m
+
+/-- `SlopeTransformer._get_gradient` as it is now: `Y = [float(y) for y in Y]` before `statistics.mean(Y)`,
+so the data handed to `statistics.mean` are floats whatever dtype stored them -/
+def slopeMean (_intTyped : Bool) (ys : List Rat) : Rat := meanAsStored false ys
 
 /-! ## Pipelines -/
 
